@@ -53,8 +53,9 @@ def optSign (cs : List Char) : Bool × List Char :=
   | '+' :: r => (false, r)
   | r => (false, r)
 
-/-- `[\-\+]?((\d+\.\d*)|(\.\d+))([eE][\+\-]?\d+)?` → (exact value, rest) -/
-def scanFloat (cs : List Char) : Option (Rat × List Char) :=
+/-- `[\-\+]?((\d+\.\d*)|(\.\d+))([eE][\+\-]?\d+)?` → (exact value, rest); the value is `none` when the decimal exponent is beyond
+anything a double can hold (the code gets `inf`/`0.0` from `float()`; the model does not describe those) -/
+def scanFloat (cs : List Char) : Option (Option Rat × List Char) :=
   let (neg, r0) := optSign cs
   let (ip, r1) := spanDigits r0
   let mant : Option (List Char × List Char × List Char) :=
@@ -83,8 +84,9 @@ def scanFloat (cs : List Char) : Option (Rat × List Char) :=
       | [] => (0, r3)
     let m : Rat := (digitsVal (ip ++ fp) : Nat)
     let scale : Int := e - fp.length
+    if scale.natAbs > 5000 then some (none, rest) else
     let q := if scale ≥ 0 then m * ((10 : Rat) ^ scale.toNat) else m / ((10 : Rat) ^ (-scale).toNat)
-    some ((if neg then -q else q), rest)
+    some (some (if neg then -q else q), rest)
 
 /-- `[\-\+]?\d+` -/
 def scanInt (cs : List Char) : Option (Int × List Char) :=
@@ -197,7 +199,8 @@ def scanOne (cs : List Char) (line : Nat) : Scan :=
       let (w, rest) := r.span isIdCont
       .tok ⟨.id, .str (String.ofList (c :: w)), line⟩ rest line
     else match scanFloat cs with
-    | some (q, rest) => .tok ⟨.float, if q == 0 && c == '-' then .negZero else .float q, line⟩ rest line
+    | some (none, _) => .stop ⟨.errOutside, .none, line⟩
+    | some (some q, rest) => .tok ⟨.float, if q == 0 && c == '-' then .negZero else .float q, line⟩ rest line
     | none =>
     match scanInt cs with
     | some (n, rest) => .tok ⟨.int, .int n, line⟩ rest line
